@@ -113,10 +113,17 @@ package gnmi
 // messages decoded from the wire: a set oneof carries a non-nil payload
 //@ spec wireValidSub(r *gnmi.SubscribeRequest) bool = r != nil && (isType(r.Request, "*gnmi.SubscribeRequest_Subscribe") ==> isSubscribeMsg(r)) && (isType(r.Request, "*gnmi.SubscribeRequest_Poll") ==> isPollMsg(r))
 
+// every per-target request the split has built so far is a subscription message with its list allocated
+//@ spec treqsWF(m map[string]*gnmi.SubscribeRequest) bool = forall t string :: (t in m) ==> m[t] != nil && allocated(m[t]) && isSubscribeMsg(m[t])
+// (its body is swept for panics and its frame proved; the partition it computes is decided by the bounded check subscribe-split)
 //@ func splitSubscribeRequest(sctx, req) (err)
-//@   trusted
+//@   props C12, C19
+//@   safe
+//@   requires sctx != nil && req != nil && isSubscribeMsg(req)
 //@   modifies sctx.treqs
 //@   ensures sctx.treqs != nil && fresh(sctx.treqs)
+//@   ensures errWF(err)
+//@   loop 1 invariant sctx.treqs != nil && treqsWF(sctx.treqs)
 
 //@ func (*Server).processSubscribeRequest(s, ctx, sctx, req) (err)
 //@   props C19, C12
@@ -276,6 +283,7 @@ package gnmi
 //@ func newTransaction(targets, overrides, strategy, username) (t, err)
 //@   props C12
 //@   safe
+//@   inlined
 //@   requires targetsWF(targets)
 
 // The Subscribe handler itself: the receive loop over the stream. What Recv hands out is a message decoded
